@@ -28,8 +28,7 @@
 //    does not cut the path, so the checks behind it are still decided: validated by edit e1, which is reported
 //    FAILED together with the library check).  Fused-vs-unfused is invisible (A-cbmc-fma).
 //  * Kani's `assert!` is assert-then-assume: once `same(r, e)` holds, the later "NaN propagates" assertions are
-//    statements about the reference value only; they roughly double the solver time of a reduction harness
-//    (dot 128b n=11: 367 s with, 163 s without) — hence the `_eq_` variants for the larger shapes.
+//    statements about the reference value only.  Their effect on cvc5's run time is erratic (see `red_eq!`).
 //  * A `[f64; 0]` operand (dangling address) makes CBMC's symex unwind every loop to the limit (8 GB exhausted);
 //    the n=0 harnesses use `&arr[..0]` instead.
 //  * ScalarProds3 associates the weight as (p1+p2)-n1 in the SIMD part and as p1-n1+p2 in the scalar tail; the
@@ -453,10 +452,12 @@ macro_rules! red {
     };
 }
 // `<kernel>_eq_<inst>_n<N>`: the same harness WITHOUT the derived "a NaN operand gives a NaN result" assertions.
-// The agreement with the kernel-order scalar reference (the C17 obligation proper) is unchanged; the NaN clause is
-// a property of the reference's VALUE that the solver must bit-blast through the whole multiply-add chain, and it
-// is what makes the n=23 reductions exceed 30 min (prods3_s256_n23: TIMEOUT at 1800 s, 2026-09-26).  The NaN
-// clause stays checked at n = 3, 6, 11 by the full harnesses.
+// The agreement with the kernel-order scalar reference (the C17 obligation proper) is unchanged.  cvc5's run time on
+// these queries is erratic, the NaN clause can cost or save time (measured 2026-09-26, 1800 s limit):
+//     dot 128b n=11: 367 s with, 163 s without      dot 256b n=23: 290 s with, TIMEOUT without
+//     prods2 256b n=23: TIMEOUT with, 472 s without  prods3 256b n=23: TIMEOUT with and without
+// so only the variant that passes where the full harness does not is kept (prods2).  The NaN clause of prods2 stays
+// checked at n = 6 and 11 by the full harnesses.
 macro_rules! red_eq {
     ($name:ident, $body:ident, $S:ident, $L:expr, $N:expr, $fused:expr) => {
         #[kani::proof]
@@ -482,9 +483,12 @@ ew!(axpy_s256_n47, axpy_body, Scalar256b, 4, 47);
 ew!(multiply_s256_n47, multiply_body, Scalar256b, 4, 47);
 red!(dot_s256_n47, dot_body, Scalar256b, 4, 47, true);
 red!(prods3_s256_n47, prods3_body, Scalar256b, 4, 47, true);
-red_eq!(dot_eq_s256_n23, dot_body, Scalar256b, 4, 23, true);
 red_eq!(prods2_eq_s256_n23, prods2_body, Scalar256b, 4, 23, true);
-red_eq!(prods3_eq_s256_n23, prods3_body, Scalar256b, 4, 23, true);
+// smaller 4-lane reduction shapes (prods3 n=23 exceeds 30 min): 7 = 0 + 4 + 3 (SIMD tail into accumulator 0, lane
+// tree, scalar tail with the tail's own association of the prods3 weight) ; 19 = 16 + 0 + 3 (all four accumulators)
+red!(dot_s256_n7, dot_body, Scalar256b, 4, 7, true);
+red!(prods3_s256_n7, prods3_body, Scalar256b, 4, 7, true);
+red!(prods3_s256_n19, prods3_body, Scalar256b, 4, 19, true);
 
 // ---- 128-bit emulation (2 lanes): 11 = 8 + 2 + 1 ; 23 = 16 + 3*2 + 1
 ew!(axpy_s128_n11, axpy_body, Scalar128b, 2, 11);
@@ -499,7 +503,6 @@ red!(prods2_s128_n11, prods2_body, Scalar128b, 2, 11, true);
 red!(prods3_s128_n11, prods3_body, Scalar128b, 2, 11, true);
 ew!(axpy_s128_n23, axpy_body, Scalar128b, 2, 23);
 red!(dot_s128_n23, dot_body, Scalar128b, 2, 23, true);
-red_eq!(dot_eq_s128_n11, dot_body, Scalar128b, 2, 11, true);
 
 // ---- 512-bit emulation (8 lanes; the AVX-512 shape): 41 = 32 + 8 + 1 ; 95 = 64 + 3*8 + 7
 ew!(axpy_s512_n41, axpy_body, Scalar512b, 8, 41);
@@ -514,8 +517,6 @@ red!(prods2_s512_n41, prods2_body, Scalar512b, 8, 41, true);
 red!(prods3_s512_n41, prods3_body, Scalar512b, 8, 41, true);
 ew!(axpy_s512_n95, axpy_body, Scalar512b, 8, 95);
 red!(dot_s512_n95, dot_body, Scalar512b, 8, 95, true);
-red_eq!(dot_eq_s512_n41, dot_body, Scalar512b, 8, 41, true);
-red_eq!(prods3_eq_s512_n41, prods3_body, Scalar512b, 8, 41, true);
 
 // ---- pulp::Scalar (1 lane, unfused mul_add_e; scalar tail is always empty): 6 = 4 + 2 ; 11 = 8 + 3
 ew!(axpy_s1_n6, axpy_body, Scalar, 1, 6);
